@@ -81,7 +81,9 @@ def puppet_scenario(sc):
 
 def nextest_config(sc, profile):
     lines = [f"[profile.{profile}]"]
-    if sc["retries"]:
+    if sc.get("retry_only"):
+        lines.append("retries = 0")
+    elif sc["retries"]:
         if sc["delay_ms"]:
             if sc["backoff"] == "fixed":
                 lines.append(f'retries = {{ backoff = "fixed", count = {sc["retries"]}, delay = "{sc["delay_ms"]}ms" }}')
@@ -107,6 +109,9 @@ def nextest_config(sc, profile):
         lines.append(f'[[profile.{profile}.overrides]]\nfilter = "test({g["members"]})"\ntest-group = "{g["name"]}"')
         if g.get("heavy"):
             lines.append(f'[[profile.{profile}.overrides]]\nfilter = "test({g["heavy"]})"\nthreads-required = {g["heavy_weight"]}')
+    if sc.get("retry_only"):
+        lines.append(f'[[profile.{profile}.overrides]]\nfilter = "test({sc["retry_only"]})"\n'
+                     f'retries = {{ backoff = "fixed", count = {sc["retries"]}, delay = "{sc["delay_ms"]}ms" }}')
     p = sc.get("priorities")
     if p:
         lines.append(f'[[profile.{profile}.overrides]]\nfilter = "test({p["high"]})"\npriority = {p["value"]}')
@@ -143,6 +148,8 @@ def selected(sc):
 def expected_attempts(sc, t):
     """attempt result kinds if the test runs to its final result without cancellation"""
     total = sc["retries"] + 1
+    if sc.get("retry_only") and sc["retry_only"] not in t["name"]:
+        total = 1
     res = []
     for k in range(total):
         e = t["expect"][min(k, len(t["expect"]) - 1)]
@@ -554,6 +561,14 @@ def oracle_C10(sc, res):
                 for i in lst:
                     if i["start"] > t_c + 0.3:
                         return f"{tn} attempt {i['attempt']} was spawned {1000 * (i['start'] - t_c):.0f} ms after cancellation began"
+    # the run ends as soon as the running tests have ended rather than sitting out retry delays
+    if canc and not res["timed_out"]:
+        ends = [i["end"] for lst in invocations(res).values() for i in lst if i["end"] is not None]
+        fins = [e["mono"] for e in tap if e["kind"] in ("TestFinished", "TestAttemptFailedWillRetry") and "mono" in e]
+        last = max(ends + fins, default=None)
+        if last is not None and res["t_end"] - last > 0.6 and sc["delay_ms"] >= 1000:
+            return (f"the run was cancelled ({canc[0]['reason']}) and the last test process ended, but nextest exited "
+                    f"{1000 * (res['t_end'] - last):.0f} ms later (retry delay {sc['delay_ms']} ms)")
     # fail-fast / max-fail exactness, from the TestFinished stream
     limit = {"ff": 1, "noff": None, "maxfail2": 2}[sc["failfast"]]
     fails = 0
@@ -595,6 +610,15 @@ def directed(prop):
         out.append(dict(tests=tests2, retries=1, delay_ms=0, backoff="fixed", failfast="noff", threads=8, filter=None,
                         run_ignored="default", sigint_at=None, priorities=None,
                         groups=dict(name="g1", max_threads=1, members="_b", heavy="t01_b", heavy_weight=8)))
+    if prop in ("C10", "C07"):
+        # an attempt that fails *after* the cancellation request has already reached its unit
+        tests = [dict(bin="alpha::t1", name="t00_a", ignored=False, attempts=[{"sleep": 0.1, "exit": 1}],
+                      expect=["fail"], mode="fail"),
+                 dict(bin="beta::t1", name="t01_b", ignored=False, attempts=[{"sleep": 0.45, "exit": 1}],
+                      expect=["fail"], mode="fail")]
+        out.append(dict(tests=tests, retries=1, delay_ms=1500, backoff="fixed", failfast="ff", threads=2, filter=None,
+                        run_ignored="default", sigint_at=None, priorities=None, groups=None,
+                        retry_only="t01_b"))
     return out
 
 
